@@ -13,6 +13,16 @@ NOT_APPLICABLE = {
 PENDING = 'check not built yet in this revision (static rule designed in DESIGN.md section 4)'
 
 
+def _rules_run(pid):
+    """The obligations the last committed run of this check discharged, by rule name (from evidence/<id>.json)."""
+    try:
+        ev = json.load(open(os.path.join(HERE, 'evidence', pid + '.json')))
+        rules = sorted((ev.get('coverage') or {}).get('obligations_by_rule', {}))
+    except (IOError, ValueError):
+        rules = []
+    return (' Rules evaluated at the last run: ' + ', '.join(rules) + '.') if rules else ''
+
+
 def main():
     props = [json.loads(l) for l in open(os.path.join(HERE, 'properties.jsonl'))]
     checks, na = [], []
@@ -42,7 +52,7 @@ def main():
             level_note=' '.join(getattr(mod, 'LEVEL_NOTE', (
                 'Trusted: CPython ast parser; the pcbverif engine; rule tables frozen in pcbverif/rules/%s.py. '
                 'Decides the structural clauses named in the level text only; value-level behaviour is not decided. '
-                % pid.lower()) + ' '.join(getattr(mod, 'ASSUMPTIONS', []))).split()),
+                % pid.lower()) + ' '.join(getattr(mod, 'ASSUMPTIONS', [])) + _rules_run(pid)).split()),
             technique=getattr(mod, 'TECHNIQUE', 'static analysis: AST rules with path facts over /repo/pcbasic'),
         ))
     man = dict(
